@@ -76,6 +76,35 @@ def _bear(h, o):
     return tuple(out)
 
 
+def _thbear(h, o):
+    """The object-oriented route: TypeHint(h).is_bearable / .hint (a wrapper cached under a key coarser than the hint answers
+    for another hint)."""
+    from beartype.door import TypeHint
+    H = _STATE['H']
+    try:
+        th = TypeHint(H[h])
+        return (th.is_bearable(OBJ[o]()), th.hint == H[h], TypeHint(H[h]) is th if _hashable(H[h]) else None)
+    except Exception as e:
+        return 'E:' + type(e).__name__
+
+
+def _door_prefixed(which, h, o):
+    """One of the two door functions with an explicit exception_prefix (their memo keys then coincide: they must not share a table)."""
+    from beartype.door import is_bearable, die_if_unbearable
+    from beartype.roar import BeartypeDoorHintViolation
+    H = _STATE['H']
+    drive.DRAW[0] = 0
+    try:
+        if which == 'is':
+            return ('is', is_bearable(OBJ[o](), H[h], exception_prefix='C14: '))
+        r = die_if_unbearable(OBJ[o](), H[h], exception_prefix='C14: ')
+        return ('die', 'returned', repr(r))
+    except BeartypeDoorHintViolation as e:
+        return ('die', 'viol', str(e).startswith('C14: '))
+    except Exception as e:
+        return (which, 'E:' + type(e).__name__)
+
+
 def _decor(h, o):
     from beartype import beartype
     from beartype.roar import BeartypeCallHintViolation
@@ -300,6 +329,11 @@ def build_ops(tier='thorough'):
         add(f'sub({a},{b})', lambda a=a, b=b: _sub(a, b))
     for a, b in [('TSi', 'TSs'), ('DA', 'DB'), ('lDA', 'lDB'), ('L1T', 'LT1'), ('U_is', 'U_si'), ('unh_i', 'unh_s'), ('L1', 'LT')]:
         add(f'theq({a},{b})', lambda a=a, b=b: _theq(a, b))
+    for h, o in [('TSi', '1'), ('TSs', "'a'"), ('DA', 'DupA()'), ('DB', 'DupB()'), ('lDB', '[DupB()]'), ('lDA', '[DupA()]'), ('U_si', "'a'")]:
+        add(f'thbear({h},{o})', lambda h=h, o=o: _thbear(h, o))
+    for h, o in [('U_is', '1.0'), ('U_is', '1'), ('list_i', "['a']")]:
+        add(f'is_p({h},{o})', lambda h=h, o=o: _door_prefixed('is', h, o))
+        add(f'die_p({h},{o})', lambda h=h, o=o: _door_prefixed('die', h, o))
     add('fwd(fail-then-define)', lambda: _fwd(True)[0])
     add('fwd(define)', lambda: _fwd(False)[0])
     add('fwd(nonhint-then-define)', _fwd_nonhint)
@@ -320,9 +354,11 @@ def build_ops(tier='thorough'):
                 'theq(TSi,TSs)', 'theq(DA,DB)', 'theq(L1T,LT1)', 'fwd(fail-then-define)', 'fwd(define)', 'fwd(nonhint-then-define)',
                 'bear(GLi,GL([1]))', "bear(GLs,GL(['a']))", 'bear(GLs,GL([1]))', "bear(GL_,GL(['a']))", 'bear(Gs,G())', "scope(dict['Key', int],A)",
                 "scope(dict['Key', int],B)", "scope(tuple[list['Key'], list[int]],A)", "scope(tuple[list['Key'], list[int]],B)",
-                "scope('Key',A)", "scope('Key',B)", 'redefine(1)', 'redefine(2)', 'gc-reuse', 'clear_caches'}
+                "scope('Key',A)", "scope('Key',B)", "thbear(TSi,1)", "thbear(TSs,'a')", 'thbear(DA,DupA())', 'thbear(DB,DupB())',
+                'is_p(U_is,1.0)', 'die_p(U_is,1.0)', 'is_p(U_is,1)', 'die_p(U_is,1)', 'redefine(1)', 'redefine(2)', 'gc-reuse', 'clear_caches'}
         keep -= {'bear(B_is,1)', 'bear(LT1,True)', 'bear(Eq1f,True)', "bear(dDB,{'k': DupB()})", 'bear(uDB,DupB())', "bear(unh_s,'a')", 'sub(TSs,TSi)',
-                 'theq(DA,DB)', 'bear(Gs,G())', "bear(lTSs,['a'])"}       # near-duplicates of kept operations (thorough keeps them)
+                 'theq(DA,DB)', 'bear(Gs,G())', "bear(lTSs,['a'])", 'bear(EqT,1)', 'decor(LT1,1)', "bear(tII,(1, 'a'))", 'sub(tII,tIS)',
+                 'bear(TSi,1)'}       # near-duplicates of kept operations (thorough keeps them)
         missing = keep - {n for n, _ in ops}
         assert not missing, missing
         ops = [(n, f) for n, f in ops if n in keep]
